@@ -567,7 +567,10 @@ Definition enc_ping : list enc := [EFill (M F_fixed) U8; EVbConst 0].
 Definition dec_ping : list dec := [].
 
 (* DISCONNECT *)
-Definition disconnect_props : list enc := [up].
+Definition disconnect_props : list enc :=
+  [EFillProp (M F_sessionExpiryInterval) U32 SessionExpiryInterval;
+   EFillProp (M F_reasonString) Bin ReasonString;
+   EFillProp (M F_serverReference) Bin ServerReference; up].
 Definition disconnect_body : list enc :=
   [EFill (M F_reasonCode) U8; EVbLen disconnect_props] ++ disconnect_props.
 Definition disconnect_vh : list enc :=
@@ -576,8 +579,11 @@ Definition disconnect_vh : list enc :=
      disconnect_body].
 Definition enc_disconnect : list enc :=
   [EFill (M F_fixed) U8; EVbLen disconnect_vh] ++ disconnect_vh.
+Definition disconnect_map : list (N * fref * wt) :=
+  [(SessionExpiryInterval, M F_sessionExpiryInterval, U32); (ReasonString, M F_reasonString, Bin);
+   (ServerReference, M F_serverReference, Bin)].
 Definition dec_disconnect : list dec :=
-  [DGet (M F_reasonCode) U8; DGetAny [] false NoSub].
+  [DGet (M F_reasonCode) U8; DGetAny disconnect_map false NoSub].
 
 (* AUTH *)
 Definition auth_props : list enc :=
